@@ -1210,3 +1210,48 @@ def rule_refill_is_unconditional(prog, rep, rid, title, attr="assign_cells", flo
     if n == 0:
         raise AnalysisError(f"{rid}: no function calls {attr} (anchor vanished)")
     return r
+
+
+def rule_no_runtime_module_state(prog, rep, rid, title, modules, consequence, floor=1):
+    """No function of `modules` changes a module-level container at run time (subscript store or delete, mutating method call, augmented
+    assignment, rebinding through `global`): such a container outlives the call, so what one call left there answers for the next one -
+    `consequence` says what that breaks for the property at hand."""
+    from ..callgraph import CallGraph
+    r = rep.rule(rid, title, floor=floor)
+    g = CallGraph(prog)
+    reach = g.reachable()
+    n_containers = 0
+    for rel in modules:
+        mod = prog.modules.get(rel)
+        if mod is None:
+            raise AnalysisError(f"{rid}: module {rel} not found")
+        shared_names = {}
+        for st in mod.tree.body:
+            tg = st.targets if isinstance(st, ast.Assign) else [st.target] if isinstance(st, ast.AnnAssign) and st.value is not None else []
+            val = getattr(st, "value", None)
+            mutable = isinstance(val, (ast.Dict, ast.List, ast.Set, ast.DictComp, ast.ListComp, ast.SetComp)) or (
+                isinstance(val, ast.Call) and U(val.func).split(".")[-1] in ("dict", "list", "set", "OrderedDict", "defaultdict", "Counter", "deque", "WeakValueDictionary"))
+            for t in tg:
+                if isinstance(t, ast.Name) and mutable:
+                    shared_names[t.id] = st
+        n_containers += len(shared_names)
+        for key, f in sorted(prog.funcs.items()):
+            if f.module.rel != rel or key not in reach:
+                continue
+            local = {a.arg for a in f.node.args.args + f.node.args.kwonlyargs} | {n.id for n in walk_no_defs(f.node) if isinstance(n, ast.Name) and isinstance(n.ctx, ast.Store)}
+            declared_global = {nm for n in walk_no_defs(f.node) if isinstance(n, ast.Global) for nm in n.names}
+            for n in walk_no_defs(f.node):
+                hit = None
+                if isinstance(n, ast.Subscript) and isinstance(n.ctx, (ast.Store, ast.Del)) and isinstance(n.value, ast.Name):
+                    hit = n.value.id
+                elif isinstance(n, ast.Call) and isinstance(n.func, ast.Attribute) and isinstance(n.func.value, ast.Name) and n.func.attr in _CARRY_MUTATORS:
+                    hit = n.func.value.id
+                elif isinstance(n, ast.AugAssign) and isinstance(n.target, ast.Name):
+                    hit = n.target.id
+                elif isinstance(n, ast.Name) and isinstance(n.ctx, ast.Store) and n.id in declared_global:
+                    hit = n.id
+                if hit in shared_names and (hit not in local or hit in declared_global):
+                    r.bad(f"state|{rel}:{hit}", f"{f.qual} changes the module-level container {hit} at run time (`{U(n)[:60]}`): {consequence}",
+                          f"pdb2pqr/{rel}:{n.lineno} ({f.qual})")
+    r.add("modules", True, f"{len(modules)} module(s), {n_containers} module-level container(s): none is changed by a function that runs after import")
+    return r
